@@ -136,7 +136,15 @@ func (ml *TruncatingMethodLogger) truncateMetadata(mdPb *binlogpb.Metadata) (tru
 		bytesLimit -= currentEntryLen
 	}
 	truncated = index < len(mdPb.Entry)
-	mdPb.Entry = mdPb.Entry[:index]
+	kept := mdPb.Entry[:index]
+	for _, entry := range mdPb.Entry[index:] {
+		// "grpc-trace-bin" is always kept, also when it follows the first
+		// entry that does not fit.
+		if entry.Key == "grpc-trace-bin" {
+			kept = append(kept, entry)
+		}
+	}
+	mdPb.Entry = kept
 	return truncated
 }
 
